@@ -61,6 +61,19 @@ EXPLANATION = ("Lean theorems over the reals about the nucleation decision of Sn
                "with scripted and recorded dice")
 PARALLEL = True
 
+# --- regeneration tie (harness/gentie.py): the formulas of the hand model SnowModel/Flake.lean are re-derived
+# from /repo's source on every run and proved equal to the generated text (lean/SnowProofs/Props/GenTie/)
+import gentie  # noqa: E402
+THEOREMS = THEOREMS + gentie.theorems("Flake")
+extra_lean_targets = list(globals().get("extra_lean_targets", [])) + [gentie.module("Flake")]
+TRUSTED = TRUSTED + ["harness/translate.py formula extraction (single assignments of the run loop -> Lean definitions; "
+                     "anything outside its tiny language is a TranslatorError)"]
+
+
+def regenerate():
+    gentie.regenerate("Flake")
+
+
 _STASH = {}
 _TOTALS = {"decisions": 0, "nucleated": 0, "placed_below_P": 0, "placed_above_P": 0, "placed_zero": 0,
            "placed_top": 0, "placed_random": 0}
